@@ -204,8 +204,14 @@ def run(tier, seed, jobs):
     from . import c13
 
     per = []
-    for sc in c13.s_scenarios():
-        if not sc["name"].startswith("deliver-into-dst"):
+    # two sessions create mailboxes at the same time: each incarnation needs its own UIDVALIDITY (checked by deleting one and
+    # renaming the other onto its name)
+    cc = {"name": "create|create", "cfg_ref": ["vf.props.c02", "cfg", []], "prelude": [], "loopopts": {"preempt_timers": False},
+          "concurrent": {"A": [{"s": "A", "op": "create", "m": "n1"}], "B": [{"s": "B", "op": "create", "m": "n2"}]}, "epilogue_vv": {"a": "n1", "b": "n2"}}
+    cs = {"name": "create|select-new-folder", "cfg_ref": ["vf.props.c02", "cfg", []], "prelude": [], "loopopts": {"preempt_timers": False},
+          "concurrent": {"A": [{"s": "A", "op": "create", "m": "n1"}], "B": [{"s": "B", "op": "create", "m": "n2/k"}]}, "epilogue_vv": {"a": "n1", "b": "n2"}}
+    for sc in [cc, cs] + c13.s_scenarios():
+        if not (sc["name"].startswith("deliver-into-dst") or sc["name"].startswith("create|")):
             continue
         r = sched.explore(sc, 1 if tier == "quick" else 2, jobs, seed, max_exec=20000 if tier == "quick" else 80000)
         res.failures.extend(f for f in r["failures"] if f.rule.startswith("C02."))
@@ -229,7 +235,8 @@ def run(tier, seed, jobs):
     res.assumptions.append("shrink part: every non-empty subset of INBOX(3) (thorough also 4) removed from the MH folder by an external tool, seen by the selected session / "
                            "a fresh session / STATUS, followed by APPEND / delivery / COPY to self / nothing; ledger-only oracle (the server may renumber the survivors)")
     res.assumptions.append("schedule part: one delivery into the destination at any scheduling point of COPY 1:2 / MOVE 1 (<=1, thorough <=2 deviations): "
-                           "every COPYUID destination UID holds the source's content in the final store")
+                           "every COPYUID destination UID holds the source's content in the final store; two CREATEs by two sessions under every schedule with "
+                           "<=1 (thorough 2) deviations, then DELETE n1; RENAME n2 n1: the name's second incarnation has another UIDVALIDITY")
     return res
 
 
